@@ -87,11 +87,18 @@ class KeysObj:
         return self._d[k]
 
 
+class KeysIterObj(KeysObj):
+    """Like http.client.HTTPMessage: keys() and item access, plus iteration over the *names* (not over pairs)."""
+
+    def __iter__(self) -> typing.Iterator[str]:
+        return iter(self._d)
+
+
 def src_pairs_for_extend(spec: list[typing.Any], other: Model) -> list[tuple[str, str]]:
     kind = spec[0]
     if kind == "hd":
         return other.lines()
-    if kind in ("dict", "keys"):
+    if kind in ("dict", "keys", "keysiter"):
         d: dict[str, str] = {}
         for k, v in spec[1]:
             d[k] = v
@@ -114,6 +121,8 @@ def build_src(spec: list[typing.Any], other_obj: typing.Any) -> typing.Any:
         return {k: v for k, v in spec[1]}
     if kind == "keys":
         return KeysObj(spec[1])
+    if kind == "keysiter":
+        return KeysIterObj(spec[1])
     return [(k, v) for k, v in spec[1]]
 
 
@@ -396,6 +405,8 @@ def op_alphabet(names: list[str], values: list[str], small: bool) -> list[list[t
         ops += [["extend", s], ["update", s]]
     ops += [["ior", srcs[1]], ["ior", srcs[2]], ["or", srcs[0]], ["or", srcs[2]], ["ror", srcs[0]], ["ror", srcs[1]], ["ctor", srcs[1]], ["ctor", srcs[2]], ["copy"], ["swap"]]
     if not small:
+        ki = ["keysiter", [[n2, v0], [n1, v1]]]
+        ops += [["extend", ki], ["ior", ki], ["or", ki], ["ctor", ki], ["update", ki]]
         ops += [["popd", n] for n in names] + [["clear"], ["ior", srcs[0]], ["ior", srcs[3]], ["or", srcs[1]], ["or", srcs[3]], ["ror", srcs[3]], ["ctor", srcs[0]], ["ctor", srcs[3]]]
     return ops
 
@@ -408,7 +419,7 @@ def random_op(rng: typing.Any) -> list[typing.Any]:
         return typing.cast(str, rng.choice(VALUES))
 
     def src() -> list[typing.Any]:
-        k = rng.choice(["dict", "pairs", "hd", "keys", "pairs", "hd"])
+        k = rng.choice(["dict", "pairs", "hd", "keys", "pairs", "hd", "keysiter"])
         if k == "hd":
             return ["hd"]
         return [k, [[n(), v()] for _ in range(rng.randint(0, 4))]]
